@@ -229,7 +229,7 @@ flush_log = ctl_unit(
      (r'backend_thread_flushed\.load\(\)', 'FLAG_LOAD(&backend_thread_flushed)', 1), (r'std::this_thread::yield\(\)\s*;', 'SLEEP();')],
     r'''__CPROVER_ensures(g_flag_loads >= 1 && g_flag_seen_true && (uintptr_t)g_flag == g_arg) /*@ C06 "flush_log returns only after it observed the flag - the very flag whose address it sent - set by the backend" */
 ''',
-    {0: RETRY_LOOP.replace('g_sleeps)', 'g_sleeps, backend_thread_flushed)'), 1: r'''
+    {r'while\s*\(\s*!LOG_STATEMENT': RETRY_LOOP.replace('g_sleeps)', 'g_sleeps, backend_thread_flushed)'), r'while\s*\(\s*!FLAG_LOAD': r'''
 __CPROVER_assigns(g_flag_loads, g_flag_seen_true, g_flag, g_sleeps)
 __CPROVER_loop_invariant(g_accepted == 1 && g_last_ok && (g_flag_loads > 0 ==> (!g_flag_seen_true && g_flag == &backend_thread_flushed)))
 '''},
@@ -239,12 +239,12 @@ init_backtrace = ctl_unit(
     'init_backtrace', 'init_backtrace', ['max_capacity', 'flush_level'], 'void LG_init_backtrace(LG* self, uint32_t max_capacity, LogLevel flush_level)', 'EV_InitBacktrace',
     (r'!\s*this->log_statement<false,\s*false>\s*\(\s*LL_None\s*,\s*&macro_metadata\s*,\s*max_capacity\s*\)', '!LOG_STATEMENT(self, macro_metadata_event, (uintptr_t)max_capacity)', 1), [],
     r'''__CPROVER_ensures(g_arg == max_capacity && self->backtrace_flush_level == flush_level) /*@ C18 "init_backtrace sends the capacity to the backend and records the flush level" */
-''', {0: RETRY_LOOP}, '  LG* l; uint32_t c; LogLevel f; LG_init_backtrace(l, c, f);', {'C08', 'C18'},
+''', {r'while\s*\(\s*!LOG_STATEMENT': RETRY_LOOP}, '  LG* l; uint32_t c; LogLevel f; LG_init_backtrace(l, c, f);', {'C08', 'C18'},
     'LoggerImpl::init_backtrace: request retried until accepted; flush level stored')
 flush_backtrace = ctl_unit(
     'flush_backtrace', 'flush_backtrace', [], 'void LG_flush_backtrace(LG* self)', 'EV_FlushBacktrace',
     (r'!\s*this->log_statement<false,\s*false>\s*\(\s*LL_None\s*,\s*&macro_metadata\s*\)', '!LOG_STATEMENT(self, macro_metadata_event, 0)', 1), [],
-    '', {0: RETRY_LOOP}, '  LG* l; LG_flush_backtrace(l);', {'C08', 'C18'},
+    '', {r'while\s*\(\s*!LOG_STATEMENT': RETRY_LOOP}, '  LG* l; LG_flush_backtrace(l);', {'C08', 'C18'},
     'LoggerImpl::flush_backtrace: request retried until accepted')
 
 UNITS = [should_log_rt, should_log_ct, te_level, encode_header, log_statement, flush_log, init_backtrace, flush_backtrace]
